@@ -3,7 +3,7 @@
 # Applies a seeded change to /repo, runs the given checks, always restores /repo afterwards.
 patch=$1; tier=$2; shift 2
 if [ -n "$(git -C /repo status --porcelain --untracked-files=no)" ]; then echo "/repo not clean"; exit 3; fi
-git -C /repo apply "$patch" || { echo "patch does not apply"; exit 3; }
+git -C /repo apply "$(realpath "$patch")" || { echo "patch does not apply"; exit 3; }
 trap 'git -C /repo checkout -- . ; echo "[/repo restored]"' EXIT INT TERM
 for c in "$@"; do
   out=$(./check $c --tier $tier 2>&1); rc=$?
